@@ -136,6 +136,16 @@ func MakeUpdown(r *fw.Rng, p UpdownProfile) UpdownInput {
 		k, j := r.Intn(nq), r.Intn(nt)
 		in.Targets[j].ID, in.Targets[j].Desc = in.Queries[k].ID, in.Queries[k].Desc
 	}
+	if r.Chance(0.08) {
+		// a sequence that is literally called "query" (the first word of the list header)
+		if r.Chance(0.5) {
+			k := r.Intn(nq)
+			in.Queries[k].ID, in.Queries[k].Desc = "query", "query"
+		} else {
+			k := r.Intn(nt)
+			in.Targets[k].ID, in.Targets[k].Desc = "query", "query"
+		}
+	}
 	Describe(r, in.Queries)
 	Describe(r, in.Targets)
 	return in
